@@ -102,4 +102,9 @@ def ticksBetweenEpochs : Nat := 621355968000000000
 example : runDec 9 exEnv 1 .unmarshal (enc exMsg) = some exMsg :=
   C03_decoders_accept_reference exEnv exEnv_ok 1 exMsg 9 exMsg_wt (by decide) _
 
+/-- The model treats an enum as a scalar of its base width everywhere (this is what the width of an enum element on the wire rests on). The
+    regenerated fact says File.fixedSizes does so for EVERY enum, imported ones included (loop over f.Enums with
+    the single statement `out[en.Name] = fixedSizeTypes[en.SimpleType]`). -/
+theorem C03_enum_sizes_as_modelled : Facts.enumFixedSizeRule = "base-width" := by decide
+
 end Bebop
